@@ -22,7 +22,7 @@ Step(t, e) ==
   CASE e.ev = "reset" -> [t0 EXCEPT !.run = e.run, !.runs = @ + 1, !.stream = e.stream, !.backlog = e.backlog, !.totals = e.totals, !.nwrites = e.nwrites,
                                    !.got = [c \in 0..7 |-> 0], !.finished = {}]
     [] e.ev = "read" ->
-         LET t1 == IF e.len <= e.n THEN t0 ELSE Viol(t0, e, "recv(n) returned more than n bytes")
+         LET t1 == IF e.n < 0 \/ e.len <= e.n THEN t0 ELSE Viol(t0, e, "recv(n) returned more than n bytes")    \* (n = -1: a whole-message read)
              t2 == IF e.c < 0 THEN Viol(t1, e, "the first bytes read are not the beginning of any client's stream")
                    ELSE IF e.ok # e.len \/ e.off # t.got[e.c]
                    THEN Viol(t1, e, IF t.backlog THEN "[K1] bytes were lost: more than 255 messages were queued on a socket whose reader had not started (try_send on the bounded queue fails)"
